@@ -734,3 +734,145 @@ def rule_N8(ctx):
     ctx.ob("N8", la, "ls prints the not-found message and returns (no traceback)", ok, "", inst="ls-handles")
     after = [c for c in own_nodes(la) if isinstance(c, ast.Call) and norm(c.func) in ("item.get_info", "info.to_string")]
     ctx.ob("N8", la, "ls renders the resolved item's info", len(after) == 2, "", inst="ls-renders")
+
+
+# ------------------------------------------------------------------------ N9
+N9_SITES = [
+    # (path, function, constructed class, kw/positional name of path, expected path text(s), parent text(s))
+    ("smpl_extract/akai/partition.py", "PartitionAdapter._decode_element", "Partition", ("path", 4), ("element_path",), ("parent",)),
+    ("smpl_extract/akai/volume.py", "VolumesAdapter._decode_element", "Volume", ("path", 3), ("volume_path",), ("parent",)),
+    ("smpl_extract/akai/sample.py", "SampleAdapter._decode_element", "AkaiSample", ("_path", None), ("sample_path",), ("parent",)),
+    ("smpl_extract/akai/program.py", "ProgramAdapter._decode_element", "Program", ("_path", None), ("program_path",), ("parent",)),
+    ("smpl_extract/roland/s7xx/performance_entry.py", "PerformanceEntryAdapter._decode_element", "PerformanceEntry", ("_path", None), ("performance_path",), ("parent",)),
+    ("smpl_extract/roland/s7xx/patch_entry.py", "PatchEntryAdapter._decode_element", "PatchEntry", ("_path", None), ("patch_path",), ("parent",)),
+    ("smpl_extract/roland/s7xx/partial_entry.py", "PartialEntryAdapter._parse", "PartialEntry", ("_path", None), ("child_info.next_path",), ("parent",)),
+    ("smpl_extract/roland/s7xx/sample_entry.py", "SampleEntryAdapter._decode_element", "SampleEntry", ("_path", None), ("sample_path",), ("parent",)),
+    ("smpl_extract/roland/s7xx/sample_file.py", "SampleFileAdapter._decode_element", "SampleFile", ("_path", None), ("sample_path",), ("parent",)),
+]
+N9_DEFS = {
+    "element_path": ("child_info.next_path",), "volume_path": ("parent_path + [name]",), "sample_path": ("child_info.next_path", "element_path + [name]"),
+    "program_path": ("child_info.parent_path + [file_name]",), "performance_path": ("child_info.parent_path + [name]",), "patch_path": ("parent_path + [name]",),
+    "parent_path": ("child_info.parent_path",), "parent": ("child_info.parent",), "element_path@roland": ("child_info.parent_path",),
+}
+
+
+def rule_N9(ctx):
+    """every element is created with path = its parent's path + its own name and with its parent, so export paths nest
+    <level>/<level>/<name>"""
+    for path, q, cls, (pk, ppos), want_path, want_parent in N9_SITES:
+        fn = ctx.fn(path, q, "N9")
+        cs = [c for c in own_nodes(fn) if isinstance(c, ast.Call) and isinstance(c.func, ast.Name) and c.func.id == cls]
+        if len(cs) != 1:
+            ctx.ob("N9", fn, f"{cls} is constructed once in {q}", False, f"{len(cs)} constructor calls", inst=f"{cls}:site")
+            continue
+        c = cs[0]
+        kw = {k.arg: norm(k.value) for k in c.keywords if k.arg}
+        pv = kw.get(pk, norm(c.args[ppos]) if ppos is not None and len(c.args) > ppos else None)
+        parv = kw.get("_parent", kw.get("parent"))
+        if parv is None and cls == "Partition" and len(c.args) > 3:
+            parv = norm(c.args[3])
+
+        def resolve(v, depth=0):
+            if v is None or depth > 3:
+                return v
+            defs = [a for a in own_nodes(fn) if isinstance(a, ast.Assign) and len(a.targets) == 1 and norm(a.targets[0]) == v]
+            if len(defs) == 1:
+                return norm(defs[0].value)
+            return v
+        pdef = resolve(pv)
+        # one more level for `element_path + [name]` / `parent_path + [name]`
+        ok = False
+        if pdef is not None:
+            if pdef in ("child_info.next_path",):
+                ok = True
+            elif pdef.endswith("+ [name]") or pdef.endswith("+ [file_name]"):
+                base = pdef.split(" + ")[0]
+                bdef = resolve(base) if base not in ("child_info.parent_path",) else base
+                ok = bdef == "child_info.parent_path"
+                nm = pdef.split("[")[-1].rstrip("]")
+                ndef = resolve(nm)
+                ok = ok and ndef in ("container.directory.name", "volume_entry.name", "child_info.name or obj.header.program_name", "sample_entry.name", nm)
+        ctx.ob("N9", c, f"{cls}: path = parent's path + own name", ok, "" if ok else f"path argument `{pv}` = `{pdef}`", inst=f"{cls}:path")
+        pardef = resolve(parv)
+        ok = pardef == "child_info.parent"
+        ctx.ob("N9", c, f"{cls}: parent = the directory that realises it", ok, "" if ok else f"parent argument `{parv}` = `{pardef}`", inst=f"{cls}:parent")
+    pc = ctx.fn("smpl_extract/util/constructs.py", "pull_child_info", "N9")
+    t = full(pc)
+    ok = "parent_path = parent.path" in t and "resultant_path = parent_path + [name]" in t and "next_path=resultant_path" in t and "parent_path=parent_path" in t \
+        and "parent = _pull_from_context(context, '_elem_parent', None)" in t and "name = _pull_from_context(context, '_elem_name', None)" in t
+    ctx.ob("N9", pc, "pull_child_info: parent from the context, parent_path = parent.path, next_path = parent_path + [name]", ok, "", inst="pull_child_info")
+    pf = ctx.fn("smpl_extract/util/constructs.py", "_pull_from_context", "N9")
+    t = full(pf)
+    ok = "if key in current_context.keys()" in t and "current_context = current_context['_']" in t
+    ctx.ob("N9", pf, "context values are looked up in the context and its enclosing context", ok, "", inst="_pull_from_context")
+    cd = ctx.fn("smpl_extract/cdda/image.py", "CompactDiskAudioImageAdapter.from_bin_cue", "N9")
+    cs = [c for c in own_nodes(cd) if isinstance(c, ast.Call) and norm(c.func) == "AudioTrack"]
+    ok = len(cs) == 2 and all({k.arg: norm(k.value) for k in c.keywords}.get("_parent") == "image" and {k.arg: norm(k.value) for k in c.keywords}.get("_path") == "track_path" for c in cs)
+    tp = [a for a in own_nodes(cd) if isinstance(a, ast.Assign) and norm(a.targets[0]) == "track_path"]
+    ok = ok and len(tp) == 2 and all(norm(a.value) == "element_path + [title]" for a in tp)
+    ctx.ob("N9", cd, "CDDA tracks: parent = the image, path = image path + [title]", ok, "", inst="AudioTrack")
+    ve = ctx.fn("smpl_extract/roland/s7xx/volume_entry.py", "VolumeEntry.path", "N9")
+    ok = "result = [self.name]" in full(ve)
+    ctx.ob("N9", ve, "Roland volumes sit directly under the image: path = [name]", ok, "", inst="VolumeEntry.path")
+    pe = ctx.fn("smpl_extract/roland/s7xx/partial_entry.py", "PartialEntry.sample_entries", "N9")
+    t = full(pe)
+    ok = "sample_entry._parent = self" in t and "new_path = path + [sample_entry.path[-1]]" in t and "sample_entry._path = new_path" in t
+    ctx.ob("N9", pe, "samples shown under a partial are re-parented to it", ok, "", inst="partial-reparent")
+    for prop in ("path", "parent"):
+        f = ctx.fn("smpl_extract/base.py", f"Element.{prop}", "N9")
+        ok = f"result = self._{prop}" in full(f)
+        ctx.ob("N9", f, f"Element.{prop} returns the stored _{prop}", ok, "", inst=f"Element.{prop}")
+    ep = ctx.fn("smpl_extract/base.py", "Element.export_path", "N9")
+    w = [n for n in own_nodes(ep) if isinstance(n, ast.While)]
+    ok = len(w) == 1 and norm(w[0].test) == "current_node is not None and len(current_node.path) > 0"
+    ctx.ob("N9", ep, "export_path stops at the root (the image has an empty path) and includes every level below it", ok, "", inst="export_path-stop")
+    for path, cls in (("smpl_extract/structural.py", "Image"), ("smpl_extract/cdda/image.py", "CompactDiskAudioImage")):
+        v = ctx.prog.class_assigned(path, cls, "_path", "N9")
+        ctx.ob("N9", v, f"{cls} is the root: its path is empty", norm(v) == "[]", norm(v), inst=f"{cls}._path", file=path, qualname=cls)
+
+
+# ------------------------------------------------------------------------ X1
+def rule_X1(ctx):
+    """info rendering keeps every row and every value (below the line cap and the column limit)"""
+    ip = "smpl_extract/info.py"
+    pt = ctx.fn(ip, "InfoTable.print_table", "X1")
+    t = full(pt)
+    ok = "if len(self.rows) <= 0:" in t and "result = '(*empty*)'" in t
+    ctx.ob("X1", pt, "an empty directory lists as (*empty*) instead of failing", ok, "", inst="empty")
+    fors = [f for f in own_nodes(pt) if isinstance(f, ast.For) and norm(f.iter) == "self.rows"]
+    ok = len(fors) == 1 and not any(isinstance(n, (ast.Break, ast.Continue, ast.If, ast.Return)) for n in ast.walk(fors[0])) \
+        and "str_buffer.write(make_line(row) + '\\n')" in full(fors[0])
+    ctx.ob("X1", pt, "every row of the listing is written, in order", ok, "", inst="all-rows")
+    ok = "row[i].ljust(column_widths[i])" in t and "elif width > column_widths[i]" in t
+    ctx.ob("X1", pt, "columns widen to the longest value (names are padded, never cut)", ok, "", inst="no-cut")
+    tr = ctx.fn(ip, "InfoTree.print_tree", "X1")
+    bi = ctx.fn(ip, "InfoTree.print_tree.build_inner", "X1")
+    t = full(bi)
+    ok = "for key, value in kv_pair" in t and "row_entries.append(RowEntry(tuple(content), depth))" in t and "if not isinstance(value, str):" in t \
+        and "content.append(str(value))" in t and "elif len(value) == 0:" in t
+    fors = [f for f in own_nodes(bi) if isinstance(f, ast.For)]
+    ok = ok and len(fors) == 1 and not any(isinstance(n, (ast.Break, ast.Continue, ast.Return)) for n in ast.walk(fors[0]))
+    ctx.ob("X1", bi, "every key of an item produces one row; nested values are expanded below it", ok, "", inst="tree-rows")
+    ok = "enumerate(item)" in t and "item.items()" in t and "isinstance(item, Sequence) or isinstance(item, Mapping)" in t
+    ctx.ob("X1", bi, "sequences are rendered element by element, mappings key by key", ok, "", inst="tree-kinds")
+    t = full(tr)
+    ok = "if i > self.max_rows:" in t and "exceeded {self.max_rows} lines" in t
+    ctx.ob("X1", tr, "output is cut only after max_rows rows, with a notice", ok, "", inst="row-cap")
+    ok = "if len(result) > self.total_width:" in t and "result[0:self.total_width - 3] + '...'" in t
+    ctx.ob("X1", tr, "a line is shortened only when it exceeds the total width", ok, "", inst="width-cap")
+    init = ctx.fn(ip, "InfoTree.__init__", "X1")
+    d = {a.arg: norm(v) for a, v in zip(init.args.args[-len(init.args.defaults):], init.args.defaults)}
+    ok = d.get("total_width") == "80" and d.get("max_rows") == "300"
+    ctx.ob("X1", init, "defaults: 80 columns, 300 rows", ok, f"{d}", inst="defaults")
+    ok = "build_inner(self.items)" in t and "row_entries.append(RowEntry(tuple(self.header)))" in t
+    ctx.ob("X1", tr, "the tree starts with the header and renders all items", ok, "", inst="tree-start")
+    gi = ctx.fn("smpl_extract/elements.py", "LeafElement.get_info", "X1")
+    t = full(gi)
+    ok = "header = (self.safe_name, ' ' * 2, self.type_name)" in t and "items = self.itemize()" in t and "InfoTree(header, items)" in t
+    ctx.ob("X1", gi, "a leaf's info = header (safe name, type) + its itemised fields", ok, "", inst="leaf-info")
+    ig = ctx.fn("smpl_extract/util/dataclass.py", "itemize_general", "X1")
+    pv = ctx.fn("smpl_extract/util/dataclass.py", "process_value", "X1")
+    t1, t2 = full(ig), full(pv)
+    ok = "k.name: process_value(getattr(self, k.name)) for k in fields(self)" in t1 and "tuple((process_value(v) for v in self))" in t1 \
+        and "k: process_value(v) for k, v in self.items()" in t1 and "result = str(value)" in t2 and "value.itemize()" in t2
+    ctx.ob("X1", ig, "itemisation keeps every field / element / key and renders scalars with str()", ok, "", inst="itemize_general")
